@@ -5,6 +5,7 @@ SELECT = r'^bluetoe::link_layer::connection_callbacks::|^bluetoe::link_layer::li
 UNITS = lambda u: u in ('w_inst_ll',) or u.startswith('t_link_layer_connection_callbacks') or u.startswith('t_link_layer_ll_connecting')
 CC = 'bluetoe::link_layer::connection_callbacks::'
 LL = 'bluetoe::link_layer::link_layer::'
+ALSO = [('C30', ('full-empty-test', 'publish', 'data-before-publish'))]   # the event FIFO is details::ring: an event is lost or reordered if the ring's full / empty tests or publication are wrong - decided by C30's rules, run here as well
 META = {
     'level': 'return-value discipline: the result of the bounded event ring\'s try_push must be consumed at every producer (a dropped result means a burst of more than max_events events '
              'between two handle_connection_events calls silently loses events, possibly `closed`); exhaustiveness: every event kind has exactly one producer and one dispatch branch calling the matching '
